@@ -35,6 +35,21 @@ func main() {
 			usage()
 		}
 		os.Exit(runReplay(os.Args[2]))
+	case "selftest":
+		if len(os.Args) < 3 {
+			usage()
+		}
+		switch os.Args[2] {
+		case "determinism":
+			n := 40
+			if len(os.Args) > 3 {
+				fmt.Sscanf(os.Args[3], "%d", &n)
+			}
+			os.Exit(selftestDeterminism(n))
+		case "instrumented-tests":
+			os.Exit(selftestInstrumentedTests())
+		}
+		usage()
 	case "run-seg":
 		if len(os.Args) < 3 {
 			usage()
